@@ -1,25 +1,41 @@
 #!/bin/bash
 # run every stored seeded change against the quick check of its property; writes seeded/RESULTS.md
+# The change is applied to a scratch worktree of /repo's HEAD (never to /repo itself) and the check is pointed at it with
+# VERIF_REPO.  The worktree (default /tmp/wt_seedtest) is created and built on demand and removed at the end unless KEEP_WT=1.
+# usage: tools/run_seedtests.sh [seed dir glob, default 'seeded/C*/*s[0-9]']   (seeds outside the glob keep their stored result.txt)
 cd /verif
+WT=${WT:-/tmp/wt_seedtest}
+if [ ! -d "$WT" ]; then
+  git -C /repo worktree add --detach "$WT" HEAD >/dev/null 2>&1 || { echo "cannot create worktree $WT"; exit 2; }
+  (cd "$WT" && ./autogen.sh >/dev/null 2>&1 && ./configure >/dev/null 2>&1 && make -j16 >/dev/null 2>&1) || { echo "scratch build failed"; exit 2; }
+  CREATED=1
+fi
 OUT=seeded/RESULTS.md
-echo "# Seeded changes vs. checks (quick tier; generated by tools/run_seedtests.sh on $(date -u +%F))" > $OUT
+PATTERN=${1:-'seeded/C*/*s[0-9]'}
+for d in $PATTERN; do
+  pid=$(echo $d | cut -d/ -f2)
+  R=/verif/$d/result.txt; : > $R
+  [ -f props/$pid.py ] || { echo "| $d | $pid | - | property not claimed |" >> $R; continue; }
+  P="/verif/$d/patch.diff"; [ -f "/verif/$d/patch_repaired.diff" ] && P="/verif/$d/patch_repaired.diff"
+  (cd "$WT" && git checkout -q -- . && (git apply "$P" 2>/dev/null || patch -p1 -s --no-backup-if-mismatch -F3 < "$P" >/dev/null 2>&1))
+  if [ $? -ne 0 ]; then git -C "$WT" checkout -q -- .; echo "| $d | $pid | - | patch no longer applies to the repaired tree |" >> $R; continue; fi
+  # a seed may name other checks that decide it (file `also_checks`, one property id per line)
+  for chk in $pid $(cat /verif/$d/also_checks 2>/dev/null); do
+    VERIF_REPO="$WT" VERIF_EVIDENCE_DIR=/tmp/seed_evidence ./check $chk quick > /tmp/seedrun.log 2>&1; rc=$?
+    v=$(grep -E "^VIOLATION" /tmp/seedrun.log | sed -E 's/.*obligation="([^"]*)" query=([a-z0-9_A-Z]*)(.*)/\2: \1\3/' | cut -c1-150 | head -3 | tr '\n' ';' | tr '|' '/')
+    u=$(grep -E "^  [a-z0-9_]+: " /tmp/seedrun.log | head -2 | cut -c1-140 | tr '\n' ';' | tr '|' '/')
+    echo "| $d | $chk | $rc | ${v}${u} |" >> $R
+    echo "$d vs $chk rc=$rc"
+  done
+  git -C "$WT" checkout -q -- .
+done
+rm -rf /tmp/seed_evidence /tmp/seedrun.log
+[ -n "$CREATED" ] && [ -z "$KEEP_WT" ] && git -C /repo worktree remove --force "$WT"
+# assemble the table from the per-seed result files (seeds not re-run keep their last result)
+echo "# Seeded changes vs. checks (quick tier; rows written by tools/run_seedtests.sh, one result.txt per seed; assembled $(date -u +%F))" > $OUT
 echo "" >> $OUT
 echo "| seed | check | exit | verdict lines |" >> $OUT
 echo "|---|---|---|---|" >> $OUT
-for d in seeded/C*/s*; do
-  pid=$(echo $d | cut -d/ -f2)
-  [ -f props/$pid.py ] || { echo "| $d | $pid | - | property not claimed |" >> $OUT; continue; }
-  cd /repo && (P="/verif/$d/patch.diff"; [ -f "/verif/$d/patch_repaired.diff" ] && P="/verif/$d/patch_repaired.diff"; git apply "$P" 2>/dev/null || patch -p1 -s --no-backup-if-mismatch -F3 < "$P" >/dev/null 2>&1)
-  if [ $? -ne 0 ]; then git checkout -q -- .; cd /verif; echo "| $d | $pid | - | patch no longer applies to the repaired tree |" >> $OUT; continue; fi
-  cd /verif
-  ./check $pid quick > /tmp/seedrun.log 2>&1; rc=$?
-  git -C /repo checkout -q -- .
-  git -C /repo status --short | grep -v '^??' | head -1
-  v=$(grep -E "^VIOLATION" /tmp/seedrun.log | sed -E 's/.*obligation="([^"]*)" query=([a-z0-9_A-Z]*)(.*)/\2: \1\3/' | cut -c1-150 | head -3 | tr '\n' ';' | tr '|' '/')
-  u=$(grep -E "^  [a-z0-9_]+: " /tmp/seedrun.log | head -2 | cut -c1-140 | tr '\n' ';' | tr '|' '/')
-  echo "| $d | $pid | $rc | ${v}${u} |" >> $OUT
-  echo "$d rc=$rc"
-done
-# restore evidence of the unchanged tree for the checks that were run
+cat seeded/C*/*/result.txt >> $OUT
 echo "" >> $OUT
 echo "exit 1 = caught (VIOLATION), exit 0 = missed, exit 2 = undecided (the change made the unit unparsable or hit a model limit)." >> $OUT
